@@ -491,12 +491,14 @@ static void handle_include (const char *inc_name, int optional) {
     }
   *p = 0;
 
-  if (++incnum == MAX_INCLUDE_DEPTH)
+  if (incnum >= MAX_INCLUDE_DEPTH)
     {
       include_error ("Maximum include depth exceeded");
+      lex_fatal++; /* give up: a header that includes itself would otherwise be re-expanded without end */
     }
   else if ((fd = inc_open (buf, name)) != -1) /* open header file */
     {
+      incnum++; /* one more include state on the stack (popped at its end of file) */
       is = ALLOCATE (incstate_t, TAG_COMPILER, "handle_include: 1");
       is->yyin_desc = yyin_desc;
       is->line = current_line;
